@@ -769,10 +769,17 @@ Proof.
     destruct R as (_ & _ & _ & _ & NZ). apply NZ. exact IN.
 Qed.
 
+Lemma bot_false : forall A st si sb, is_bot st = true -> Rel A st si sb -> False.
+Proof.
+  intros A st si sb H (_ & _ & _ & _ & NZ). unfold is_bot in H. apply existsb_exists in H. destruct H as (p & IN & E).
+  destruct p; [|discriminate]. apply (NZ [] IN). reflexivity.
+Qed.
+
 Lemma entails_sound : forall A st si sb f, Rel A st si sb -> entails w st f = true ->
   Rel (anchor_of si sb) (st_of_facts f) si sb.
 Proof.
   intros A st si sb f R H. unfold entails in H.
+  apply orb_prop in H. destruct H as [H|H]; [exfalso; exact (bot_false A st si sb H R)|].
   apply andb_prop in H. destruct H as [H HNZ]. apply andb_prop in H. destruct H as [H HT].
   apply andb_prop in H. destruct H as [HD HC].
   rewrite forallb_forall in HD, HC, HT, HNZ.
@@ -1026,7 +1033,7 @@ Notation fi := (st_of_facts inv).
 Notation ent := (add_nz (st_of_facts inv) (e_var (if memz cond (f_d inv) then axi cond else acell cond))).
 Notation LOOP := (ILoop cond shift body once :: rest').
 Hypothesis BODY : forall f A si sb, Rel A ent si sb -> bc_pc sb = head -> SimC (ir_exec w e false f body si) sb pc2 stb.
-Hypothesis REST : forall f A si sb, Rel A (if once then stb' else fi) si sb -> bc_pc sb = back + 1 ->
+Hypothesis REST : forall f A si sb, Rel A (if once then once_exit w stb' cond else fi) si sb -> bc_pc sb = back + 1 ->
   SimC (ir_exec w e false f rest' si) sb pc' st'.
 Hypothesis MOVE : after_move w code pc2 stb shift = Some (back, stb').
 Hypothesis BACKI : exists off, code_at code back = Some (BrNZ cond off) /\ back + off = head.
@@ -1064,7 +1071,10 @@ Proof.
   pose proof (entails_sound A stb' si sb inv R ENT) as RA.
   destruct (ir_read si cond =? 0) eqn:Z0.
   - apply (SimC_reach _ sb (next sb) _ _ ST). destruct once eqn:ON.
-    + apply (REST f A). * apply (Rel_ext A stb' si sb); try reflexivity. exact R. * cbn. lia.
+    + apply (REST f A); [|cbn; lia]. unfold once_exit. destruct (nonzero_in w stb' (cell_i stb' cond)) eqn:NZC.
+      * exfalso. apply (nonzero_in_sound A stb' si sb _ R NZC). destruct R as (RI1 & _).
+        rewrite <- (RI_read A stb' si cond RI1). apply Z.eqb_eq. exact Z0.
+      * apply (Rel_ext A stb' si sb); try reflexivity. exact R.
     + apply (REST f (anchor_of si sb)). * apply (Rel_ext _ fi si sb); try reflexivity. exact RA. * cbn. lia.
   - apply (SimC_reach _ sb (bc_set_pc sb (bc_pc sb + off)) _ _ ST).
     apply (head_from_back f IH).
@@ -1243,7 +1253,7 @@ Proof.
         assert (BODY : forall f A si sb, Rel A (add_nz (st_of_facts inv) (e_var (if memz cond (f_d inv) then axi cond else acell cond))) si sb ->
                   bc_pc sb = head -> SimC (ir_exec w e false f body si) sb pc2 stb).
         { intros f0 A0 si0 sb0 R0 P0. apply (IH _ _ _ _ _ _ _ _ _ TB ltac:(destruct once; split_ands; repeat match goal with Hx : (_ =? _) = true |- _ => apply Z.eqb_eq in Hx end; lia) f0 A0 si0 sb0 R0 P0). }
-        assert (REST : forall f A si sb, Rel A (if once then stb' else st_of_facts inv) si sb -> bc_pc sb = back + 1 ->
+        assert (REST : forall f A si sb, Rel A (if once then once_exit w stb' cond else st_of_facts inv) si sb -> bc_pc sb = back + 1 ->
                   SimC (ir_exec w e false f rest' si) sb pc' st').
         { intros f0 A0 si0 sb0 R0 P0. apply (IH _ _ _ _ _ _ _ _ _ H ltac:(destruct once; split_ands; repeat match goal with Hx : (_ =? _) = true |- _ => apply Z.eqb_eq in Hx end; lia) f0 A0 si0 sb0 R0 P0). }
         assert (BACKI : exists off, code_at code back = Some (BrNZ cond off) /\ back + off = head).
@@ -1312,31 +1322,42 @@ Proof.
 Qed.
 
 (** ** whole programs *)
-Lemma rel_init : forall b, Rel (anchor_of (ir0 b) (bc0 b)) st0 (ir0 b) (bc0 b).
+Lemma look_zeros : forall k zs p, look k (map (fun k => (k, [])) zs) = Some p -> p = [].
 Proof.
-  intros b.
+  intros k zs p. induction zs as [|z zs IH]; cbn [map look]; [discriminate|].
+  destruct (z =? k); [intros H; injection H as <-; reflexivity|exact IH].
+Qed.
+
+Lemma rel_init : forall b zs, Rel (anchor_of (ir0 b) (bc0 b)) (st0 zs) (ir0 b) (bc0 b).
+Proof.
+  intros b zs.
   assert (Z0 : forall k, ev (anchor_of (ir0 b) (bc0 b)) (e_var (acell k)) = 0).
   { intros k. rewrite ev_var, rho_acell. cbn. rewrite MachineProofs.tget_empty. apply Z.mod_0_l. pose proof Mp; lia. }
   split; [|split; [|split; [reflexivity|split]]].
   - split; [reflexivity|]. split; [reflexivity|]. split; [cbn; lia|]. intros k. cbn [ir0 ir_tape]. rewrite MachineProofs.tget_empty.
-    unfold cell_i. cbn [st0 s_ci s_d look memz]. symmetry. apply Z0.
+    unfold cell_i. cbn [st0 s_ci s_d memz]. destruct (look k _) as [p|] eqn:L.
+    + rewrite (look_zeros _ _ _ L). reflexivity.
+    + symmetry. apply Z0.
   - split; [reflexivity|]. split; [reflexivity|]. split; [cbn; lia|]. split.
-    + intros k. cbn [bc0 bc_tape]. rewrite MachineProofs.tget_empty. unfold cell_b. cbn [st0 s_cb s_d look memz]. symmetry. apply Z0.
+    + intros k. cbn [bc0 bc_tape]. rewrite MachineProofs.tget_empty. unfold cell_b. cbn [st0 s_cb s_d memz].
+      destruct (look k _) as [p|] eqn:L.
+      * rewrite (look_zeros _ _ _ L). reflexivity.
+      * symmetry. apply Z0.
     + intros t p L. discriminate.
   - intros k _. reflexivity.
   - intros p [].
 Qed.
 
-Theorem tv_check_sound : forall fuse ir cs b, tv_check w fuse ir code cs = true -> forall f si',
+Theorem tv_check_sound : forall fuse ir zs cs b, tv_check w fuse ir code zs cs = true -> forall f si',
   (ir_exec w e false f (snd ir) (ir0 b) = Done si' ->
      exists g sb', bexec g (bc0 b) = Done sb' /\ bc_io sb' = ir_io si') /\
   (ir_exec w e false f (snd ir) (ir0 b) = Stopped si' ->
      exists g sb', bexec g (bc0 b) = Stopped sb' /\ bc_io sb' = ir_io si').
 Proof.
-  intros fuse ir cs b H f si'. unfold tv_check in H. apply andb_prop in H. destruct H as [_ H].
-  destruct (tv_block (S (isize (snd ir))) w fuse code (snd ir) 0 len st0 cs) as [[[pc' st'] cs']|] eqn:TB; [|discriminate].
+  intros fuse ir zs cs b H f si'. unfold tv_check in H. apply andb_prop in H. destruct H as [_ H].
+  destruct (tv_block (S (isize (snd ir))) w fuse code (snd ir) 0 len (st0 zs) cs) as [[[pc' st'] cs']|] eqn:TB; [|discriminate].
   destruct cs'; [|discriminate].
-  pose proof (tv_block_sound _ _ _ _ _ _ _ _ _ _ TB ltac:(lia) f _ (ir0 b) (bc0 b) (rel_init b) eq_refl) as S.
+  pose proof (tv_block_sound _ _ _ _ _ _ _ _ _ _ TB ltac:(lia) f _ (ir0 b) (bc0 b) (rel_init b zs) eq_refl) as S.
   split; intros E; rewrite E in S; cbn [SimC] in S.
   - destruct S as (A' & sb' & (n & RE) & P & (_ & _ & IO & _)).
     apply orb_prop in H. destruct H as [H|H].
@@ -1353,15 +1374,15 @@ Qed.
 End Sim.
 
 (** the statement for a bytecode program as the engines run it *)
-Theorem tv_sound : forall w fuse ir (p : bprog) cs e budget, tv_check w fuse ir (bp_code p) cs = true ->
+Theorem tv_sound : forall w fuse ir (p : bprog) zs cs e budget, tv_check w fuse ir (bp_code p) zs cs = true ->
   forall fuel si',
   (ir_run w e false budget fuel ir = Done si' ->
      exists fuel' sb', bc_run w e false budget fuel' p = Done sb' /\ bc_io sb' = ir_io si') /\
   (ir_run w e false budget fuel ir = Stopped si' ->
      exists fuel' sb', bc_run w e false budget fuel' p = Stopped sb' /\ bc_io sb' = ir_io si').
 Proof.
-  intros w fuse ir p cs e budget H fuel si'.
+  intros w fuse ir p zs cs e budget H fuel si'.
   assert (Hw : 0 <= w) by (unfold tv_check in H; apply andb_prop in H; destruct H as [H _]; apply Z.leb_le; exact H).
   unfold ir_run, bc_run. cbn [andb].
-  apply (tv_check_sound w Hw e (bp_code p) (fetch_of p) (fetch_instr_at p) fuse ir cs budget H fuel si').
+  apply (tv_check_sound w Hw e (bp_code p) (fetch_of p) (fetch_instr_at p) fuse ir zs cs budget H fuel si').
 Qed.
